@@ -93,7 +93,7 @@ theorem mapM_map_congr {α β γ} (f g : α → β) (F G : β → R γ) : ∀ (l
 theorem defaultValueA (lit : Lit) (ty : Ty) : defaultValue (docEnvA s c apps) lit ty = defaultValue (docEnv s) lit ty := by
   simp only [defaultValue, (valueFromAst_congrA s c apps coerceFuel).1]
 
-theorem resolvesA' : (docEnvA s c apps).resolves = (docEnv s).resolves := funext (resolvesA s c apps)
+theorem resolvesA_fun : (docEnvA s c apps).resolves = (docEnv s).resolves := funext (resolvesA s c apps)
 
 theorem checkRefA (t : Ty) : checkRef (docEnvA s c apps) t = checkRef (docEnv s) t := by
   simp only [checkRef, resolvesA]
@@ -128,7 +128,7 @@ theorem buildTypeDefA (t : TypeD) :
   have hn : (t.values.map (enumValToDefA c apps t.name)).map (·.name) = (t.values.map enumValToDef).map (·.name) := by
     simp [List.map_map, Function.comp_def, enumValToDefA, enumValToDef]
   unfold buildTypeDef
-  cases hk : t.kind <;> simp only [typeToDefA, typeToDef, hk, checkNames, resolvesA', hf, hv, hi, hn]
+  cases hk : t.kind <;> simp only [typeToDefA, typeToDef, hk, checkNames, resolvesA_fun, hf, hv, hi, hn]
 
 theorem buildDirectiveA (d : DirectiveD) :
     buildDirective (docEnvA s c apps) (directiveToDefA s c apps d) = buildDirective (docEnv s) (directiveToDef s d) := by
@@ -300,7 +300,7 @@ theorem print_build_roundtrip_custom (h : printBuildWF s = true) : build (schema
         have e : Env.of (s.types.map (typeToDefA s c apps)) = docEnvA s c apps := rfl
         by_cases hn : needsSchemaBlockA s c apps = true
         · simp only [hn, if_true, List.head?_cons, buildRoots]
-          rw [e, resolvesA']
+          rw [e, resolvesA_fun]
           exact roots_addOps s _ (fun q e => by have := hro'.1.1; rw [e] at this; exact root_resolves s q this)
             (fun q e => by have := hro'.1.2; rw [e] at this; exact root_resolves s q this)
             (fun q e => by have := hro'.2; rw [e] at this; exact root_resolves s q this)
